@@ -20,7 +20,7 @@ QUERY_TIMER_S = 8        # a multi-annotator query on <= 9 samples that needs lo
 def cases(prop, tier, seed):
     rs = np.random.RandomState(seed + 5)
     out = []
-    reps = 1 if tier == "quick" else 5
+    reps = 1 if tier == "quick" else 12
     if prop == "C19":
         for clfname in ("PWC", "GaussianNB", "SGD", "PWC-speedup"):
             for t in range(30 * reps):
